@@ -81,5 +81,17 @@ CHECKS = {
         "text": "Every colour of the tier's set (quick: step-8 lattice x all b, all near-neutral colours, slabs around cube midpoints, ~320k colours; thorough: all 2^24, exhaustive) is encoded by the real TTYEncoder as foreground, background and underline colour under each depth. TLC judges: the 256-colour entry lies in 16..255 and is not provably farther than any of the 240 entries (squared distance in 2^14 fixed point from the exact sRGB transfer function; the separable bound makes the 240-way minimum cheap), all three roles agree, the grey level is the nearest of {0,.33,.66,1} by integer luminance (hence monotone), and true-colour components are unchanged.",
         "note": "A choice within the rounding slack of the optimum (about 1e-4 relative) is accepted; perceptual closeness beyond the library's own metric is not judged.",
     },
+    "C05": {
+        "level": "translation_validation",
+        "technique": "TLA+ ECMA-48/xterm control-sequence parser and SGR rendition machine (VT.tla) interprets the bytes the real encoder emits for every command; per-command expected operations written in the EncoderJudge spec",
+        "text": "Every TerminalCommand variant with boundary parameters (0, 1, 65535, 2^32, usize::MAX-1, +-1, i32::MAX, i32::MIN), every DEC mode set/reset/query, all 192 attribute x underline faces with sampled (thorough: all) colour pairs incl. translucent ones, thousands of FaceModify field combinations, under the three colour depths and both keyboard-capability settings, is encoded by the real TTYEncoder; TLC parses the bytes with an independent VT interpreter and requires exactly the commanded operation (numbers as digit strings + BigNat increment; a Face must yield exactly the requested rendition from both a default and a fully busy prior rendition). Streams of 2-5 commands and repetition templates through one encoder must parse to the concatenation of the commands' own operations and each command must emit the same bytes as a fresh encoder.",
+        "note": "The interpreter is xterm's reading of ECMA-48 (0 = default 1 for ECH/CUx, 22 normal intensity).",
+    },
+    "C06": {
+        "level": "translation_validation",
+        "technique": "encoder output decoded back by the library's own command decoder and compared field by field; SGR histories through the cell writer judged against the TLA+ SGR rendition machine",
+        "text": "(a) FaceModify values over all combinations of reset/underline/bold/italic/blink/strike with sampled colours plus every colour component value 0..255, the 192 attribute x underline faces, and characters of every UTF-8 length are written by TTYEncoder in true-colour mode and read back by TTYCommandDecoder; TLC requires identity on every expressible field, that the read-back modification rebuilds the face from a plain and from a busy face (spec semantics AND the real FaceModify::apply), and identical characters. (b) Seeded SGR histories from the expressible parameter table (';' and ':' colour forms, empty parameters, 4:0-4:5, 22/23/24/25/29) interleaved with multi-byte text are written through CellWrite::tty_writer whole, byte-wise, in 3-byte pieces and randomly cut; the cells' faces must equal those of VT.tla's SGR machine and be chunking-independent.",
+        "note": "Known finding: SGR 39/49 cannot be expressed by FaceModify and are ignored by the writer.",
+    },
 }
 
